@@ -174,6 +174,10 @@ Definition uses_sequence (u : universe) : bool :=
   existsb (fun km => existsb (fun e => existsb (fun v => match v_sequence v with Some _ => true | None => false end) (snd e))
                              (m_elements (snd km))) (u_metas u).
 
+(* coverage: a class with a field of its own type *)
+Definition uses_recursion (u : universe) : bool :=
+  existsb (fun km => existsb (N.eqb (fst km)) (class_children (snd km))) (u_metas u).
+
 (* which clause excludes the case: 1 class factory, 2 wf_model, 3 fits *)
 Definition guard_clauses (k : rt_case) : list N :=
   (if nodefault_free (rc_cfg k) then [] else [1])
